@@ -38,6 +38,11 @@ from .report import HarnessError
 
 SKIP = ("__skip__",)
 
+
+def _new_item():
+    from .structure import new_item
+    new_item()
+
 _SYS = None          # set before the worker pool is forked
 _SEED = 0
 
@@ -71,6 +76,7 @@ def _expand_chunk(entries):
     state_check = getattr(system, "state_check", None)
     npruned = 0
     for hist, dg in entries:
+        _new_item()
         w0 = build(system, hist)
         if _digest(system, w0) != dg:
             raise HarnessError(
@@ -82,6 +88,7 @@ def _expand_chunk(entries):
             # state invariant: evaluated exactly once per state, when the state is expanded
             # (the parent has deduplicated it globally by then)
             pre = build(system, hist[:-1])
+            w0 = build(system, hist)
             bad = state_check(pre, hist[-1], w0, None)
             if bad:
                 for fp, detail in bad:
